@@ -498,6 +498,12 @@ pub fn label_of(scn: &Scn, interrupted: bool) -> String {
         // (how the fragments were kept pending -- one frame per poll, device blocked, or simply
         // more fragments than one poll sends -- is a precondition, not the cause: not in the label)
     }
+    if scn.part == "perm" {
+        match &scn.first {
+            None => p.push("receiver's-first-reassembly".into()),
+            Some(f) => p.push(format!("receiver-reassembled-a-{}-datagram-before", size_class(scn.s_hw, scn.r_hw, f))),
+        }
+    }
     if scn.part == "seq" || scn.part == "twosock" {
         if let (Some(f), Some(&l)) = (&scn.first, scn.lens.first()) {
             p.push(size_class(scn.s_hw, scn.r_hw, &scn.main_dg(l)).into());
@@ -1551,10 +1557,23 @@ pub fn order_class(order: &[usize], n: usize) -> String {
 }
 
 /// deliver `frames[order]` to a FRESH receiver and return what its sockets saw
-pub fn deliver_fresh(scn: &Scn, frames: &[Vec<u8>], order: &[usize]) -> (Vec<UdpObs>, Vec<Vec<u8>>, usize) {
+pub fn deliver_fresh(scn: &Scn, prior: &[Vec<u8>], frames: &[Vec<u8>], order: &[usize]) -> (Vec<UdpObs>, Vec<Vec<u8>>, usize) {
     let cfg = scn.world_cfg(Med::Lowpan);
     let mut w = World::new(&cfg);
     w.udp_rebind(scn.sport, scn.dport, scn.hl);
+    // "warmed-up" receiver: an earlier datagram (scn.first) reassembled in order first; without
+    // it the permuted set below is the first reassembly in this interface's life
+    if !prior.is_empty() {
+        for f in prior {
+            w.r.dev.rx.push_back(f.clone());
+            w.r.poll(w.now);
+            w.now += STEP_US;
+        }
+        let h = w.r.udp;
+        let _ = World::udp_drain(&mut w.r, h);
+        let s = w.r.sockets.get_mut::<smoltcp::socket::raw::Socket>(w.r.raw);
+        while s.recv().is_ok() {}
+    }
     for &i in order {
         w.r.dev.rx.push_back(frames[i].clone());
         w.r.poll(w.now);
@@ -1573,13 +1592,13 @@ pub fn deliver_fresh(scn: &Scn, frames: &[Vec<u8>], order: &[usize]) -> (Vec<Udp
     (World::udp_drain(&mut w.r, h), raw, out_frames)
 }
 
-pub fn eval_perm(scn: &Scn, frames: &[Vec<u8>], acc: &mut Acc) {
+pub fn eval_perm(scn: &Scn, prior: &[Vec<u8>], frames: &[Vec<u8>], acc: &mut Acc) {
     let (src, dst) = (scn.src_addr().octets(), scn.dst_addr().octets());
-    let exp = UdpObs { payload: pattern(scn.lens[0], 0), src, sport: scn.sport, local: dst };
+    let exp = UdpObs { payload: pattern(scn.lens[0], PERM_SALT), src, sport: scn.sport, local: dst };
     let n = frames.len();
     let frag1_first = scn.order.first() == Some(&0);
     let oc = order_class(&scn.order, n);
-    let r = catch_unwind(AssertUnwindSafe(|| deliver_fresh(scn, frames, &scn.order)));
+    let r = catch_unwind(AssertUnwindSafe(|| deliver_fresh(scn, prior, frames, &scn.order)));
     acc.perm_sequences += 1;
     let ctx = |extra: &str| -> String {
         format!("{} | scenario {} | captured fragments:{}", extra, scn.to_json(), frames_text(frames, true))
@@ -1607,14 +1626,21 @@ pub fn eval_perm(scn: &Scn, frames: &[Vec<u8>], acc: &mut Acc) {
             if good > 1 {
                 acc.viol(format!("C20/perm-duplicated/udp/{}|{}", oc, cause(scn, 0)), ctx(&format!("order {:?}: the datagram was delivered {} times", scn.order, good)), scn);
             }
-            // Lenient reading of "any fragment arrival order the reassembler can track": delivery is
-            // DEMANDED only when FRAG1 arrives first (process_sixlowpan_fragment also handles FRAGN
-            // before FRAG1 when built with alloc, but a fixed-buffer reassembler may legitimately
-            // give up there); other orders only have to be safe.
-            if good == 0 && frag1_first {
+            // "any fragment arrival order the reassembler can track": smoltcp's reassembler places a
+            // FRAGN at its offset whether or not FRAG1 has arrived (process_sixlowpan_fragment ->
+            // PacketAssembler::add), for every order and duplicate of <= 4 fragments (at most 2
+            // holes, ASSEMBLER_MAX_SEGMENT_COUNT = 4), on a fresh receiver and on one that has
+            // reassembled before. All of these orders are therefore tracked and delivery is
+            // demanded for each of them.
+            if good == 0 {
                 acc.viol(
                     format!("C20/perm-lost/udp/{}|{}", oc, cause(scn, 0)),
-                    ctx(&format!("order {:?} (FRAG1 first): datagram of {} bytes was not delivered to a fresh receiver", scn.order, scn.lens[0])),
+                    ctx(&format!(
+                        "order {:?}: datagram of {} bytes was not delivered to a receiver that {}",
+                        scn.order,
+                        scn.lens[0],
+                        if prior.is_empty() { "had never reassembled anything".to_string() } else { format!("had reassembled one datagram ({} fragments) before", prior.len()) }
+                    )),
                     scn,
                 );
             }
@@ -1632,21 +1658,46 @@ pub fn eval_perm(scn: &Scn, frames: &[Vec<u8>], acc: &mut Acc) {
     }
 }
 
+/// payload pattern salt of the permuted datagram (the prior datagram uses salt 0)
+pub const PERM_SALT: usize = 5;
+
+/// Capture, from a live sender, the frames of the prior datagram (`scn.first`, if any) and of
+/// the datagram to permute. Returns (prior frames, frames, in-order delivery between the live
+/// pair worked, warm-up ok, polls).
+pub fn perm_capture(scn: &Scn) -> (Vec<Vec<u8>>, Vec<Vec<u8>>, bool, bool, u64) {
+    let mut w = World::new(&scn.world_cfg(Med::Lowpan));
+    let warm = prepare(&mut w, scn);
+    w.udp_rebind(scn.sport, scn.dport, scn.hl);
+    let (src, dst) = (scn.src_addr(), scn.dst_addr());
+    let mut prior = vec![];
+    if let Some(f) = &scn.first {
+        w.clear_logs();
+        w.udp_send(src, dst, scn.dport, &pattern(f.len, 0));
+        w.settle(80 + f.len / 30);
+        prior = std::mem::take(&mut w.s2r);
+        let h = w.r.udp;
+        let _ = World::udp_drain(&mut w.r, h);
+    }
+    w.clear_logs();
+    w.too_long.clear();
+    w.udp_send(src, dst, scn.dport, &pattern(scn.lens[0], PERM_SALT));
+    w.settle(80 + scn.lens[0] / 30);
+    let frames = std::mem::take(&mut w.s2r);
+    let h = w.r.udp;
+    let got = World::udp_drain(&mut w.r, h);
+    let ok = got.len() == 1 && got[0].payload == pattern(scn.lens[0], PERM_SALT);
+    (prior, frames, ok, warm, w.polls)
+}
+
 /// capture the fragments of one datagram, then try every order on fresh receivers
 pub fn run_perm(scn: &Scn, acc: &mut Acc) {
-    let r = catch_unwind(AssertUnwindSafe(|| {
-        let mut w = World::new(&scn.world_cfg(Med::Lowpan));
-        let warm = prepare(&mut w, scn);
-        w.udp_rebind(scn.sport, scn.dport, scn.hl);
-        let o = udp_exchange(&mut w, scn);
-        (warm, o, w.polls)
-    }));
-    let (lo, polls) = match r {
-        Ok((warm, o, p)) => {
+    let r = catch_unwind(AssertUnwindSafe(|| perm_capture(scn)));
+    let (prior, frames, exp_ok, polls) = match r {
+        Ok((prior, frames, ok, warm, p)) => {
             if !warm {
                 acc.warm_fail += 1;
             }
-            (o, p)
+            (prior, frames, ok, p)
         }
         Err(e) => {
             panic_viol(scn, e, acc, "6LoWPAN world (capturing fragments)");
@@ -1655,7 +1706,6 @@ pub fn run_perm(scn: &Scn, acc: &mut Acc) {
     };
     acc.worlds += 1;
     acc.polls += polls;
-    let frames = lo.frames.clone();
     let n = frames.len();
     let all_frag = frames.iter().enumerate().all(|(i, f)| match lowpan_kind(f) {
         LowpanKind::Frag1 { .. } => i == 0,
@@ -1665,7 +1715,6 @@ pub fn run_perm(scn: &Scn, acc: &mut Acc) {
     if !(2..=4).contains(&n) || !all_frag {
         return;
     }
-    let exp_ok = lo.udp.len() == 1 && lo.udp[0].payload == pattern(scn.lens[0], 0);
     if !exp_ok {
         // the in-order delivery between the live pair already fails: reported by the udp part
         acc.perm_skipped_base_fails += 1;
@@ -1676,7 +1725,7 @@ pub fn run_perm(scn: &Scn, acc: &mut Acc) {
     for seq in sequences(n) {
         let mut s = scn.clone();
         s.order = seq;
-        eval_perm(&s, &frames, acc);
+        eval_perm(&s, &prior, &frames, acc);
         acc.frames += s.order.len() as u64;
     }
 }
